@@ -276,8 +276,13 @@ fn run(ops: Vec<Request>, snaps: Vec<usize>, enc_seed: u64, dec_seed: u64, real:
 impl Property for C05 {
     fn id(&self) -> &'static str { "C05" }
     fn runs(&self, tier: Tier) -> u64 { match tier { Tier::Quick => 20_000, Tier::Thorough => 1_000_000 } }
-    fn gen_plan(&self, seed: u64, tier: Tier) -> Value { generate(seed, tier) }
+    fn gen_plan(&self, seed: u64, tier: Tier) -> Value {
+        // cluster tier (c05_cluster.rs): one seed in a hundred boots the real main process and real workers
+        if Prng::derive(seed, "c05/cluster-tier").below(100) == 0 { return super::c05_cluster::generate(seed, tier); }
+        generate(seed, tier)
+    }
     fn run_plan(&self, plan: &Value) -> RunReport {
+        if plan["family"].as_str().unwrap_or("").starts_with("cluster_bootstrap") { return super::c05_cluster::run(plan, false).0; }
         let ops = match cfggen::ops_from_value(&plan["ops"]) { Ok(o) => o, Err(e) => return RunReport { harness_error: Some(format!("bad plan: {e}")), ..Default::default() } };
         let mut snaps: Vec<usize> = plan["snaps"].as_array().map(|a| a.iter().filter_map(|x| x.as_u64()).map(|x| x as usize).collect()).unwrap_or_default();
         // after shrinking the history may be shorter than the snapshot indices: always snapshot the end
@@ -299,6 +304,7 @@ impl Property for C05 {
         rep
     }
     fn shrink(&self, plan: &Value) -> Vec<Value> {
+        if plan["family"].as_str().unwrap_or("").starts_with("cluster_bootstrap") { return super::c05_cluster::shrink(plan); }
         let mut out: Vec<Value> = Vec::new();
         // fewer snapshots first
         if let Some(s) = plan["snaps"].as_array() { if s.len() > 1 { for i in 0..s.len() { let mut p = plan.clone(); let mut t = s.clone(); t.remove(i); p["snaps"] = Value::Array(t); out.push(p); } } }
@@ -306,6 +312,7 @@ impl Property for C05 {
         out
     }
     fn debug_plan(&self, plan: &Value) -> String {
+        if plan["family"].as_str().unwrap_or("").starts_with("cluster_bootstrap") { return super::c05_cluster::run(plan, true).1; }
         let Ok(ops) = cfggen::ops_from_value(&plan["ops"]) else { return "bad plan".into() };
         let mut st = ConfigState::new();
         let mut s = String::new();
